@@ -52,8 +52,13 @@ def _gathering_hash(self):
     try:
         return self._sim_seq
     except AttributeError:
-        _gather_seq[0] += 1
-        self._sim_seq = _gather_seq[0]
+        loop = getattr(self, "_loop", None)
+        if isinstance(loop, SimLoop):
+            # numbered per simulated loop: independent of what ran earlier in this process
+            self._sim_seq = (1 << 40) + loop.next_seq()
+        else:
+            _gather_seq[0] += 1
+            self._sim_seq = _gather_seq[0]
         return self._sim_seq
 
 
@@ -126,6 +131,7 @@ class SimLoop(base_events.BaseEventLoop):
         self.set_exception_handler(self._exc_handler)
         self.finalizer_hits = []
         self.exc_reports = []
+        self.all_tasks_created = []
 
     # --- replaced OS parts -------------------------------------------------
     def time(self):
@@ -157,7 +163,11 @@ class SimLoop(base_events.BaseEventLoop):
         seq = self.next_seq()
         name = kwargs.pop("name", None)
         # never asyncio's global Task-<n> counter
-        return SimTask(coro, loop=loop, name=name or f"T{seq}", seq=seq, **kwargs)
+        task = SimTask(coro, loop=loop, name=name or f"T{seq}", seq=seq, **kwargs)
+        # strong references: whether an abandoned pending task is still around must not depend
+        # on reference cycles and collector timing
+        self.all_tasks_created.append(task)
+        return task
 
     def _exc_handler(self, loop, context):
         msg = context.get("message", "")
@@ -417,10 +427,7 @@ class Sim:
         return self.status
 
     def unfinished_tasks(self):
-        return sorted(
-            (t for t in asyncio.all_tasks(self.loop) if not t.done()),
-            key=lambda t: t._sim_seq,
-        )
+        return [t for t in self.loop.all_tasks_created if not t.done()]
 
     def close(self):
         """Dispose of whatever is left (after verdicts were taken)."""
@@ -443,3 +450,4 @@ class Sim:
             loop.close()
         except Exception:
             pass
+        loop.all_tasks_created = []
